@@ -109,9 +109,13 @@ func materialise(dir string, c RestartCase, rng *rand.Rand, allowOld bool) ([]ma
 			return nil, nil, nil, fmt.Errorf("materialised file has %d bytes, wanted %d blocks", len(onDisk), f.Size)
 		}
 		layout := "v2"
-		if allowOld && k != fmtw.CAS && !usedOld[f.Key] && rng.Intn(3) == 0 {
-			layout = []string{"v1", "v0"}[rng.Intn(2)]
-			usedOld[f.Key] = true
+		if allowOld && k != fmtw.CAS && rng.Intn(3) != 0 {
+			// the old layouts carry no suffix: a key has at most one flat ("v0") and one two-level ("v1") file
+			l := []string{"v1", "v0"}[rng.Intn(2)]
+			if !usedOld[f.Key+"/"+l] {
+				layout = l
+				usedOld[f.Key+"/"+l] = true
+			}
 		}
 		var rel string
 		if layout == "v2" {
